@@ -54,6 +54,30 @@ class NPX:
     def triu(self, a, k=0):
         return np.triu(a, k)
 
+    # validation predicates meeting a series stand-in: a series stands for a finite, valid real number (array or scalar)
+    def _pred(self, x, value, real):
+        a = np.asarray(x)
+        if isinstance(x, ps.PS):
+            return value
+        if a.dtype == object:
+            return np.full(a.shape, value, dtype=bool) if a.ndim else value
+        return real(x)
+
+    def isfinite(self, x):
+        return self._pred(x, True, np.isfinite)
+
+    def isinf(self, x):
+        return self._pred(x, False, np.isinf)
+
+    def isnan(self, x):
+        return self._pred(x, False, np.isnan)
+
+    def isscalar(self, x):
+        return isinstance(x, ps.PS) or np.isscalar(x)
+
+    def ndim(self, x):
+        return 0 if isinstance(x, ps.PS) else np.ndim(x)
+
 
 def _truth(Jm, n_terms):
     """Taylor series (the definition): E = sum (Ah)^k/k!, I1 = sum A^k h^(k+1)/(k+1)!, I2 = sum A^k h^(k+2)/(k!(k+2))"""
@@ -147,10 +171,9 @@ def _guard(f, args):
         inrepo = [fr for fr in tb if "/pyyeti/" in fr.filename and "/verif/" not in fr.filename]
         last = tb[-1]
         line = (last.line or "").strip()
-        if inrepo and "/pyyeti/" in last.filename and line.startswith("raise"):
-            st, why = "failed", "the real code raised %r at %s:%s" % (ex, last.filename, last.lineno)
-        else:
-            st, why = "undecided", "symbolic run stopped: %r at %s:%s" % (ex, last.filename, last.lineno)
+        # an exception during a run on series/symbolic stand-ins is a tool limit (e.g. input validation meeting a stand-in object), never a violation by itself:
+        # real exceptions on valid input are found by the concrete float sweep, which calls the same functions on real numbers
+        st, why = "undecided", "symbolic run stopped: %r at %s:%s" % (ex, last.filename, last.lineno)
         return [report.Verdict("%s%s::runs to completion" % (f.__name__, args), st, "series", time.time() - t0, "post", EM, {"reason": why}).as_dict()]
 
 
